@@ -38,8 +38,8 @@ META = {
     "design_ref": "7/C65",
     "shards": {"quick": 4, "thorough": 16},
     "budget_s": {"quick": 70, "thorough": 420},
-    "min_evals": {"quick": 600, "thorough": 10000},
-    "min_nontrivial": {"quick": 60, "thorough": 1000},
+    "min_evals": {"quick": 600, "thorough": 5000},
+    "min_nontrivial": {"quick": 60, "thorough": 500},
     "deciding": ["exec.map", "exec.starmap", "exec.submit", "exec.exactly_once"],
     "rule": "case = one client call (backend, workers, persist, kind, function, kwargs, argument lists, delay plan); distinct = all of "
             "these; non-trivial = worker logs show a completion order different from the submission order",
